@@ -1130,6 +1130,12 @@ pub struct Slots {
   /// slot path prefixes of implementation signatures that follow overload
   /// signatures (not part of the public signature)
   pub overload_impls: BTreeSet<String>,
+  /// every parameter slot key (annotated or not)
+  pub params: BTreeSet<String>,
+  /// parameters written `x?: T`
+  pub optional: BTreeSet<String>,
+  /// parameters followed only by optional, defaulted or rest parameters
+  pub optional_tail: BTreeSet<String>,
 }
 
 impl Slots {
@@ -1138,7 +1144,25 @@ impl Slots {
   }
 
   fn params<'a>(&mut self, base: &str, pats: impl Iterator<Item = &'a Pat>) {
-    for (i, p) in pats.enumerate() {
+    let pats: Vec<&Pat> = pats.collect();
+    let is_optional = |p: &Pat| match p {
+      Pat::Ident(b) => b.optional,
+      Pat::Array(a) => a.optional,
+      Pat::Object(o) => o.optional,
+      Pat::Assign(_) | Pat::Rest(_) => true,
+      _ => false,
+    };
+    for (i, p) in pats.iter().enumerate() {
+      let key = format!("{}/param {}", base, i);
+      self.params.insert(key.clone());
+      if matches!(p, Pat::Ident(b) if b.optional) || matches!(p, Pat::Array(a) if a.optional) || matches!(p, Pat::Object(o) if o.optional) {
+        self.optional.insert(key.clone());
+      }
+      if pats[i..].iter().all(|q| is_optional(q)) {
+        self.optional_tail.insert(key.clone());
+      }
+    }
+    for (i, p) in pats.into_iter().enumerate() {
       let key = format!("{}/param {}", base, i);
       let ann = match p {
         Pat::Ident(b) => b.type_ann.as_ref(),
@@ -1198,39 +1222,34 @@ impl Slots {
             self.overload_impls.insert(format!("{}/", b));
           }
           ctor_k += 1;
-          for (i, p) in k.params.iter().enumerate() {
-            match p {
-              ParamOrTsParamProp::Param(p) => {
-                // reuse params() on a single element with the right index
-                let key = format!("{}/param {}", b, i);
-                let mut tmp = Slots::default();
-                tmp.params("x", std::iter::once(&p.pat));
-                if let Some(v) = tmp.slots.remove("x/param 0") {
-                  self.put(key.clone(), v);
-                }
-                if !tmp.defaulted.is_empty() {
-                  self.defaulted.insert(key);
-                }
-              }
-              ParamOrTsParamProp::TsParamProp(pp) => {
-                let (name, ann, defaulted) = match &pp.param {
-                  TsParamPropParam::Ident(b) => (b.id.sym.to_string(), b.type_ann.as_ref(), false),
-                  TsParamPropParam::Assign(a) => match &*a.left {
-                    Pat::Ident(b) => (b.id.sym.to_string(), b.type_ann.as_ref(), true),
-                    _ => continue,
-                  },
-                };
-                if let Some(t) = ann {
-                  let key = format!("{}/param {}", b, i);
-                  self.put(key.clone(), SlotVal::Type(t.type_ann.clone()));
-                  if defaulted {
-                    self.defaulted.insert(key);
-                  }
-                  if pp.accessibility != Some(Accessibility::Private) {
-                    // the property the parameter declares
-                    self.put(format!("{}/property {}", base, name), SlotVal::Type(t.type_ann.clone()));
-                  }
-                }
+          // all parameters as patterns (parameter properties included), so
+          // that the optional-tail rule sees the whole list
+          let pats: Vec<Pat> = k
+            .params
+            .iter()
+            .map(|p| match p {
+              ParamOrTsParamProp::Param(p) => p.pat.clone(),
+              ParamOrTsParamProp::TsParamProp(pp) => match &pp.param {
+                TsParamPropParam::Ident(b) => Pat::Ident(b.clone()),
+                TsParamPropParam::Assign(a) => Pat::Assign(a.clone()),
+              },
+            })
+            .collect();
+          self.params(&b, pats.iter());
+          for p in &k.params {
+            if let ParamOrTsParamProp::TsParamProp(pp) = p {
+              let (name, ann) = match &pp.param {
+                TsParamPropParam::Ident(b) => (b.id.sym.to_string(), b.type_ann.as_ref()),
+                TsParamPropParam::Assign(a) => match &*a.left {
+                  Pat::Ident(b) => (b.id.sym.to_string(), b.type_ann.as_ref()),
+                  _ => continue,
+                },
+              };
+              if let Some(t) = ann
+                && pp.accessibility != Some(Accessibility::Private)
+              {
+                // the property the parameter declares
+                self.put(format!("{}/property {}", base, name), SlotVal::Type(t.type_ann.clone()));
               }
             }
           }
